@@ -13,6 +13,7 @@ import (
 	kemtypes "github.com/flant/shell-operator/pkg/kube_events_manager/types"
 	"github.com/flant/shell-operator/pkg/metric"
 	utils "github.com/flant/shell-operator/pkg/utils/labels"
+	"github.com/flant/shell-operator/pkg/utils/verifhook"
 )
 
 type Monitor interface {
@@ -212,6 +213,7 @@ func (m *monitor) CreateInformers() error {
 						log.Err(err))
 				}
 				m.VaryingInformers.Store(nsName, varyingInformers)
+				verifhook.Yield("mon.nsAdded.afterStore", nsName)
 
 				ctx, cancelForNs := context.WithCancel(m.ctx)
 				m.cancelForNs.Store(nsName, cancelForNs)
@@ -278,11 +280,13 @@ func (m *monitor) Snapshot() []kemtypes.ObjectAndFilterResult {
 
 	for _, informer := range m.ResourceInformers {
 		objects = append(objects, informer.getCachedObjects()...)
+		verifhook.Yield("mon.Snapshot.nextInformer")
 	}
 
 	m.VaryingInformers.RangeValue(func(value []*resourceInformer) {
 		for _, informer := range value {
 			objects = append(objects, informer.getCachedObjects()...)
+			verifhook.Yield("mon.Snapshot.nextInformer")
 		}
 	})
 
@@ -295,15 +299,19 @@ func (m *monitor) Snapshot() []kemtypes.ObjectAndFilterResult {
 // EnableKubeEventCb allows execution of event callback for all informers.
 // Also executes eventCb for events accumulated during "Synchronization" phase.
 func (m *monitor) EnableKubeEventCb() {
+	verifhook.Yield("mon.EnableKubeEventCb.begin")
 	for _, informer := range m.ResourceInformers {
 		informer.enableKubeEventCb()
+		verifhook.Yield("mon.EnableKubeEventCb.nextInformer")
 	}
 	// Execute eventCb for events accumulated during "Synchronization" phase.
 	m.VaryingInformers.RangeValue(func(value []*resourceInformer) {
 		for _, informer := range value {
 			informer.enableKubeEventCb()
+			verifhook.Yield("mon.EnableKubeEventCb.nextInformer")
 		}
 	})
+	verifhook.Yield("mon.EnableKubeEventCb.beforeFlag")
 	// Enable events for future VaryingInformers.
 	m.eventsEnabled = true
 }
